@@ -2,7 +2,7 @@
 from core import Case
 from props.tr31util import VERS, rb, rs, rand_blocks, make_header, split_block, unwrap_case, tr31, ALNUM, PRINTABLE, Session
 
-OBLIGATIONS = ["Psec.Props.C02.dispatch_ok_tag", "Psec.Props.C02.unwrap_sound", "Psec.Props.C02.fromHexWs_tight", "Psec.Props.C02.parse_injective", "Psec.Props.C02.kbpk_size_bound", "Psec.Props.C02.C02_full_of_no_forgery", "Psec.Props.C15.unwrapFn_errors"]
+OBLIGATIONS = ["Psec.Props.C02.dispatch_ok_tag", "Psec.Props.C02.unwrap_sound", "Psec.Props.C02.fromHexWs_tight", "Psec.Props.C02.parse_injective", "Psec.Props.C02.kbpk_size_bound", "Psec.Props.C02.C02_full_of_no_forgery", "Psec.Props.C15.unwrapFn_errors", "Psec.Props.C02.genuine_triple", "Psec.Props.C02.same_triple_same_block", "Psec.Props.C02.accepted_genuine_or_forgery", "Psec.Props.C02.C02_full_of_no_mac_forgery"]
 TRUSTED_BASE = ["Lean 4.33 kernel", "hypothesis Ciphers.Lawful", "ASSUMED, not provable in any executable model: EUF-CMA unforgeability of TDES CBC-MAC (32-bit), TDES-CMAC and AES-CMAC, and key separation of the derivations",
                 "the Lean model executed with the reference ciphers is the independent verdict oracle", "correspondence harness and compiled driver"]
 RULE = ("for genuine blocks of every version / KBPK size / block layout: single-character substitutions (quick: sampled positions x sampled characters of the position's alphabet; "
